@@ -62,6 +62,8 @@ K_FILTEREXACT = ("actuator plugin with dyntype=filterexact: mj_nextActivation in
                  "the exact-filter formula instead of Euler (plugin state != act + dt*act_dot)")
 K_ACTRANGE = ("actuator plugin with actlimited: actrange clamps the plugin-owned act slots (documented: the limit does not "
               "apply to activations computed by the plugin)")
+K_TOUCH = ("touch_grid plugin reads geom_bodyid[contact.geom] for every contact: flex contacts have geom = -1 "
+           "(out-of-bounds read of the model buffer)")
 K_README_UNITS = ("pid README: the ki activation variable is documented as the I term in units of force, the plugin stores "
                   "the error integral (force / ki)")
 
@@ -665,7 +667,48 @@ def iso_scenarios():
     out.append(("cable+cable+pid", cab, "none"))
     cab2 = cable_xml(2, "box 4x10mm", "straight", "free", "identity", two=True)
     out.append(("cable(free)+cable(free)", cab2, "none"))
+    # sensor plugin next to an actuator plugin, with a flex (contact.geom = -1) resting on the floor
+    out.append(("touch_grid+pid with a flex contact", TOUCH_FLEX_XML, "touch_grid+flex"))
     return out
+
+
+TOUCH_FLEX_XML = """<mujoco>
+  <option timestep="0.002"/>
+  <size memory="2M"/>
+  <extension>
+    <plugin plugin="mujoco.sensor.touch_grid"/>
+    <plugin plugin="mujoco.pid"><instance name="pid"><config key="kp" value="1.5"/></instance></plugin>
+  </extension>
+  <worldbody>
+    <geom name="floor" type="plane" size="0 0 0.1"/>
+    <body name="pad" pos="0 0 0.049">
+      <joint name="j" type="slide" axis="0 0 1"/>
+      <geom type="box" size=".05 .05 .05"/>
+      <site name="touch" pos="0 0 -0.05" zaxis="0 0 -1"/>
+    </body>
+    <flexcomp name="soft" type="grid" count="2 2 2" spacing=".1 .1 .1" pos="1 0 0.005" radius="0.01" dim="3" mass="0.2"
+              dof="trilinear">
+      <contact selfcollide="none" internal="false"/>
+      <elasticity young="1e3" poisson="0.2"/>
+    </flexcomp>
+  </worldbody>
+  <actuator><plugin joint="j" plugin="mujoco.pid" instance="pid"/></actuator>
+  <sensor>
+    <plugin name="tg" plugin="mujoco.sensor.touch_grid" objtype="site" objname="touch">
+      <config key="size" value="3 3"/><config key="fov" value="60 60"/><config key="gamma" value="0"/>
+      <config key="nchannel" value="3"/>
+    </plugin>
+  </sensor>
+</mujoco>"""
+
+# scenario class -> canonical key of a crash / rejection / foreign write in that scenario
+_SCEN_KEY = {"touch_grid+flex": K_TOUCH}
+
+
+def _scen_key(prefix, default):
+    if prefix in _SCEN_KEY:
+        return _SCEN_KEY[prefix]
+    return K_ADDR if prefix not in ("none", "motor") else default
 
 
 def _iso_allowed(m, inst, cb, plugin_name):
@@ -682,6 +725,12 @@ def _iso_allowed(m, inst, cb, plugin_name):
                 nown = int(m.actuator_actnum[a]) - (0 if m.actuator_dyntype[a] == 0 else 1)
                 for s in range(int(m.actuator_actadr[a]), int(m.actuator_actadr[a]) + nown):
                     ok.add(("act_dot", s))
+    elif plugin_name == "mujoco.sensor.touch_grid":
+        if cb == "compute":
+            for i in range(m.nsensor):
+                if m.sensor_plugin[i] == inst:
+                    for k in range(int(m.sensor_adr[i]), int(m.sensor_adr[i]) + int(m.sensor_dim[i])):
+                        ok.add(("sensordata", k))
     elif plugin_name == "mujoco.elasticity.cable":
         if cb == "compute":
             for b in range(m.nbody):
@@ -738,21 +787,25 @@ def _iso_job(job):
 
 
 def _iso_eval(part, lib, name, xml, prefix, lines, r):
-    addr_model = prefix not in ("none", "motor")
+    addr_model = prefix not in ("none", "motor", "touch_grid+flex")
     rep = dict(scenario=name, xml=xml)
     if lines is None:
         summ = re.search(r"SUMMARY: (.*)", r.stderr)
         kind = re.search(r"ERROR: AddressSanitizer: ([\w-]+)", r.stderr)
-        what = "isolation driver died rc=%d on '%s': %s %s" % (
-            r.returncode, name, kind.group(1) if kind else "", (summ.group(1)[:200] if summ else r.stderr[-300:]))
+        where = ""
+        mo = re.search(r"\((/[^()\s]+\.so)\+(0x[0-9a-f]+)\)", summ.group(1)) if summ else None
+        if mo:
+            where = " in " + rx.symbolize(mo.group(1), mo.group(2))
+        what = "isolation driver died rc=%d on '%s': %s%s %s" % (
+            r.returncode, name, kind.group(1) if kind else "", where, (summ.group(1)[:200] if summ else r.stderr[-300:]))
         part.count(1, key=("crash", name))
-        part.violation(K_ADDR if addr_model else "plugin callback: sanitizer report / crash", what, rep)
+        part.violation(_scen_key(prefix, "plugin callback: sanitizer report / crash"), what, rep)
         return
     try:
         m = lib.load_xml(xml)
     except mj.MjError as e:
         part.count(1)
-        part.violation(K_ADDR if addr_model else "isolation: model rejected", "%s: %s" % (name, e), rep)
+        part.violation(_scen_key(prefix, "isolation: model rejected"), "%s: %s" % (name, e), rep)
         return
     names = {}
     calls = []
@@ -770,7 +823,7 @@ def _iso_eval(part, lib, name, xml, prefix, lines, r):
             if f[3] != "plugin_data":       # the deep copy owns distinct plugin objects (pointer values differ)
                 changes[(int(f[1]), f[2])].append((f[3], int(f[4])))
         elif f[0] == "ERR":
-            part.violation(K_ADDR if addr_model else "plugin callback raised mju_error", "%s: %s" % (name, line), rep)
+            part.violation(_scen_key(prefix, "plugin callback raised mju_error"), "%s: %s" % (name, line), rep)
     if len(names) < 2:
         raise RuntimeError("harness: isolation scenario %s has < 2 plugin instances: %r" % (name, lines[:5]))
     for (inst, cb) in calls:
@@ -916,7 +969,7 @@ def run(ctx):
     exe = build.ensure_exe("c51_iso", ["drivers/c51_iso.cc"], variant="asan")
     scen = iso_scenarios()
     plain = [s for s in scen if s[2] in ("none", "motor")]
-    ijobs = [(exe, plain)] + [(exe, [s]) for s in scen if s[2] not in ("none", "motor")]
+    ijobs = [(exe, plain)] + [(exe, [s]) for s in scen if s[2] not in ("none", "motor")]     # crash-prone: own process
     ctx.extra["isolation_scenarios"] = len(scen)
     with cf.ThreadPoolExecutor(max_workers=len(ijobs)) as ex:      # one sanitizer-build driver process per job
         for part in ex.map(_iso_chunk, [[j] for j in ijobs]):
